@@ -27,6 +27,20 @@ def gen_target(rng, kind=None):
     # the first block must hold the free-list array (one list object per bucket) with room to spare
     nlists = (mx - (1 if pt == 'small' else 8) + 1) if bd == 'identity' else 10
     bs = max(bs, 16 + nlists * 64 * 3)
+    # rarely met shapes: a block source handing out any number of blocks of one size ("const": what static_block_allocator and
+    # virtual_block_allocator do), collections with one list or a few, first blocks whose default capacity (block / lists) is
+    # near the largest node size -- below it, between it and the next power of two, just above the small list's chunk header
+    r = rng.random()
+    if r < 0.25:
+        src = 'const'
+    if r < 0.10 or 0.50 <= r < 0.58:
+        mx = rng.choice([8, 8, 9, 12] if pt != 'small' else [8, 4, 1, 2, 9])
+        nlists = (mx - (1 if pt == 'small' else 8) + 1) if bd == 'identity' else 10
+        bs = max(rng.choice([1024, 2048, 4096]), 16 + nlists * 64 * 3)
+    if 0.58 <= r < 0.80:
+        nl = max(1, mx - (0 if pt == 'small' else 7)) if bd == 'identity' else max(1, (mx - 1).bit_length() - (-1 if pt == 'small' else 2))
+        c = rng.randint(max(8, mx - 4), 2 * mx + 48)
+        bs = 16 + nl * max(c, 64) + rng.randint(0, 40)
     return dict(kind='coll', pt=pt, bd=bd, mx=mx, bs=bs, src=src, pos=pos,
                 line='coll %s %s %d %d %s %s' % (pt, bd, mx, bs, src, pos))
 
@@ -145,3 +159,24 @@ def gen_fragment_script(rng):
         lines.append('dall %s' % rng.choice(['fwd', 'rev', 'alt']))
     lines.append('destroy')
     return t, '\n'.join(lines) + '\n'
+
+def boundary_colls():
+    """collections whose first block makes the default capacity (block / number of lists) land on the boundaries of the
+    constructor's size check: at the requested maximum, just below / at / above the largest list's node size (which exceeds the
+    maximum with log2 buckets) and around node size + chunk header for the small list; growing and constant-size sources"""
+    out = []
+    for pt, fl, me in (('node', 48, 8), ('array', 48, 8), ('small', 56, 1)):
+        for bd, mx in (('log2', 100), ('log2', 33), ('identity', 64), ('identity', 16), ('identity', 8)):
+            if bd == 'identity':
+                nl, top = max(1, mx - me + 1), max(mx, me)
+            else:
+                top = max(me, 1 << (mx - 1).bit_length()); nl = top.bit_length() - me.bit_length() + 1
+            for c in sorted(set([mx, top - 1, top, top + 31, top + 33, top + 72])):
+                if c < fl + 16:          # the first block must hold the list array itself
+                    continue
+                for src in ('grow', 'const'):
+                    bs = 16 + nl * c + (nl // 2)
+                    t = dict(kind='coll', pt=pt, bd=bd, mx=mx, bs=bs, src=src, pos='low')
+                    t['line'] = 'coll %s %s %d %d %s low' % (pt, bd, mx, bs, src)
+                    out.append(t)
+    return out
